@@ -6,6 +6,7 @@ harness/src/suite_e.rs): per table `name:n:fnv:n:fnv:n:fnv` over the canonical t
 persisted histories and the in-memory histories; block tables; latest; max; block under construction.
 -/
 import Brc20.Model.Node
+import Brc20.Model.Sim
 import Brc20.Model.Logs
 
 namespace Brc20.DriverE
@@ -68,10 +69,12 @@ def parseEv (s : String) : Ev :=
 both estimates, `brc20_balance`): the node is returned as it was; recorded table writes, persistent writes,
 committing runs or an entry into `DatabaseCommit` are refused, and so is a simulation environment that differs from
 the one the next transaction will get. -/
-def readStep (n : Node) (rawEvents : List String) (evs : List Ev) : Node × Class :=
+def readStep (n : Node) (rawEvents : List String) (evs : List Ev) (ncalls : Nat := 0) : Node × Class :=
   let bad := rawEvents.any (fun e => e.startsWith "S " || e.startsWith "W " || e.startsWith "X dbcommit" || e.startsWith "X tx ")
   let simBad := (simRuns evs).any (fun fs => !(n.simEnvOk fs))
-  (n, if bad then .reject "read-wrote" else if simBad then .reject "sim-env" else .ok)
+  let multiBad := !(n.simMultiOk ncalls (multiRuns evs))
+  (n, if bad then .reject "read-wrote" else if simBad then .reject "sim-env"
+      else if multiBad then .reject "simmulti-env" else .ok)
 
 def strip0x (s : String) : String := if s.startsWith "0x" then (s.drop 2).toString else s
 
@@ -140,7 +143,7 @@ def step (n : Node) (line : String) : Node × String :=
   | "clear" => fin n.clear
   | "reopen" => fin (n.reopen, .ok)
   | "reorg" => fin (n.reorg (num "n"))
-  | "read" => fin (readStep n (parts.drop 1) evs)
+  | "read" => fin (readStep n (parts.drop 1) evs (num "ncalls"))
   | "logsq" => (n, logsq g)
   | _ => (n, "bad-op")
 
